@@ -20,13 +20,17 @@ TRUSTED = [
 ]
 ASSUMPTIONS = [
     "distinct package / blocker / choice-point objects used in one history compare unequal (== is identity)",
-    "the key passed to add_blocker/incref/decref is a function of the blocker (the resolver always passes blocker.key)",
+    "the key a blocker is registered under (the `key` argument of add_blocker / incref / decref, defaulting to blocker.key) is a function of "
+    "the blocker; it need NOT be the blocker's own .key attribute: the resolver registers the mangled blocker of a virtual under the key of "
+    "the original atom (an AndRestriction without any .key), so blockers whose own key differs from the registration key, or that have no "
+    ".key at all, are part of the histories (the model's blkKey is the registration key; the own key must never be consulted)",
     "rollback positions are positions recorded between operations (plan_state.current_state before/after an apply), as the resolver does; "
     "raw mid-operation positions are only compared model-vs-code",
     "operations respect their contract (`applicable`): a forced add_op is not given an already slotted object, remove_op names the "
     "choice point the package was added with, replace_op is used on a slot holding exactly one package; operations that raise end the history",
 ]
-RULE = ("histories of 4-40 steps over 3-7 packages (1-3 keys, 1-2 slots), 1-4 blockers with random match sets (incl. self-blocking), "
+RULE = ("histories of 4-40 steps over 3-7 packages (1-3 keys, 1-2 slots), 1-4 blockers with random match sets (incl. self-blocking; a third of "
+        "them registered under a key that is not their own .key, some without a .key attribute), "
         "2-5 choice points, generated against the live plan_state so that most operations are valid: add (forced/unforced), hardref, backref, "
         "remove, replace (forced/unforced, also refused), incref/decref, rollbacks to random recorded positions; a separate stream breaks the "
         "contract or uses raw positions (model-vs-code only); non-trivial = in-contract history in which some rollback reverted at least one "
@@ -62,6 +66,21 @@ def make_classes():
         def __repr__(self):
             return "b%d" % self.i
 
+    class BlkNoKey(restriction.base):
+        """like the AndRestriction the resolver builds for a virtual's blocker: no .key of its own"""
+        __slots__ = ("i", "ms")
+
+        def __init__(self, i, ms):
+            sf = object.__setattr__
+            sf(self, "i", i)
+            sf(self, "ms", ms)
+
+        def match(self, pkg):
+            return pkg.i in self.ms
+
+        def __repr__(self):
+            return "b%d" % self.i
+
     class Choice:
         __slots__ = ("i",)
 
@@ -71,7 +90,7 @@ def make_classes():
         def __repr__(self):
             return "c%d" % self.i
 
-    return Pkg, Blk, Choice
+    return Pkg, Blk, BlkNoKey, Choice
 
 
 class World:
@@ -80,10 +99,15 @@ class World:
     def __init__(self, pkgs, blks, nchoices=8, nrestr=4):
         from pkgcore.resolver import state
         self.state_mod = state
-        Pkg, Blk, Choice = make_classes()
+        Pkg, Blk, BlkNoKey, Choice = make_classes()
+        # a blocker is [registration key, matched packages] or [registration key, matched packages, own key | None]:
+        # own key = the blocker's .key attribute (None: no such attribute); absent = the registration key
+        blks = [list(b) + [b[0]] if len(b) == 2 else list(b) for b in blks]
         self.pkgs_spec, self.blks_spec = pkgs, blks
         self.P = [Pkg(i, "k%d" % k, s) for i, (k, s) in enumerate(pkgs)]
-        self.B = [Blk(i, "k%d" % k, frozenset(ms), disable_inst_caching=True) for i, (k, ms) in enumerate(blks)]
+        self.B = [(BlkNoKey(i, frozenset(ms), disable_inst_caching=True) if own is None else
+                   Blk(i, "k%d" % own, frozenset(ms), disable_inst_caching=True)) for i, (k, ms, own) in enumerate(blks)]
+        self.regkey = ["k%d" % k for k, _, _ in blks]
         self.C = [Choice(i) for i in range(nchoices)]
         self.R = ["r%d" % i for i in range(nrestr)]
         self.idmap = {id(p): p.i for p in self.P}
@@ -125,11 +149,13 @@ class World:
                 out = S.replace_op(self.C[st[1]], self.P[st[2]], force=st[3]).apply(ps)
             elif kind == "incref":
                 b = self.B[st[2]]
-                # the public entry point of the resolver; key passed explicitly half of the time
-                out = ps.add_blocker(self.C[st[1]], b, key=(b.key if st[2] % 2 else None))
+                # the public entry point of the resolver; the key is passed explicitly whenever it is not the blocker's own
+                # (as insert_blockers does), else half of the time
+                own = self.blks_spec[st[2]][2] == self.blks_spec[st[2]][0]
+                out = ps.add_blocker(self.C[st[1]], b, key=(None if own and (st[1] + st[2]) % 2 else self.regkey[st[2]]))
             elif kind == "decref":
                 b = self.B[st[2]]
-                out = S.decref_forward_block_op(self.C[st[1]], b, b.key).apply(ps)
+                out = S.decref_forward_block_op(self.C[st[1]], b, self.regkey[st[2]]).apply(ps)
             else:
                 raise ValueError(kind)
         except Exception as e:  # noqa: BLE001 — any exception is "raises"
@@ -164,8 +190,12 @@ class World:
                 problems.append("empty list kept in " + name)
         for c, l in ps.rev_blockers.items():
             for b, key in l:
-                if key != b.key:
-                    problems.append("rev_blockers key differs from blocker.key")
+                if key != self.regkey[b.i]:
+                    problems.append("rev_blockers records %r for b%d, registered under %r" % (key, b.i, self.regkey[b.i]))
+        for k, l in ps.state.limiters.items():
+            for b in l:
+                if k != self.regkey[b.i]:
+                    problems.append("limiter b%d filed under %r, registered under %r" % (b.i, k, self.regkey[b.i]))
 
         def multiset(rc):
             return sorted(x for k, n in rc.items() for x in [k if isinstance(k, str) else k.i] * n)
@@ -232,7 +262,10 @@ def gen_universe(rng):
         ms = [i for i in same if rng.random() < 0.45]
         if rng.random() < 0.15:
             ms += [i for i in range(npk) if rng.random() < 0.3]   # matches across keys are never consulted
-        blks.append([k, sorted(set(ms))])
+        # the blocker's own .key: usually the key it is registered under; else another key (of some package, or of none), or no attribute
+        o = rng.random()
+        own = k if o < 0.64 else (rng.randrange(nkeys + 1) if o < 0.88 else None)
+        blks.append([k, sorted(set(ms)), own])
     return pkgs, blks
 
 
@@ -302,8 +335,9 @@ def P(k, s):
 
 # universe of the corpus: p0,p1,p2 share key 0 slot 0; p3 key 0 slot 1; p4 key 1 slot 0
 CU_PK = [P(0, 0), P(0, 0), P(0, 0), P(0, 1), P(1, 0)]
-# b0 matches p0 (self blocker material), b1 matches p2, b2 matches p0 and p2, b3 matches p4
-CU_BL = [[0, [0]], [0, [2]], [0, [0, 2]], [1, [4]]]
+# b0 matches p0 (self blocker material), b1 matches p2, b2 matches p0 and p2, b3 matches p4;
+# b4 matches p3, registered under key 0 but its own .key is key 1; b5 matches p4, registered under key 1, has no .key attribute
+CU_BL = [[0, [0]], [0, [2]], [0, [0, 2]], [1, [4]], [0, [3], 1], [1, [4], None]]
 CORPUS = [
     # the vdb_filter defect (fix 4f41f65): add p; remove p; add p; remove p; backtrack(3)
     [["add", 0, 0, False], ["remove", 0, 0], ["add", 0, 0, False], ["remove", 0, 0], ["rollback", 3]],
@@ -326,6 +360,12 @@ CORPUS = [
      ["rollback", 6], ["rollback", 3], ["add", 2, 2, False], ["rollback", 0]],
     # rollback to the current position and to 0 on an empty plan
     [["rollback", 0], ["add", 4, 4, False], ["rollback", 1], ["rollback", 0], ["rollback", 0]],
+    # blockers registered under a key that is not their own .key (what insert_blockers does for the mangled blocker of a virtual): the
+    # last reference dropped by a remove / a replace / a decref and restored by a rollback must be filed under the registration key again
+    [["add", 0, 0, False], ["incref", 0, 4], ["remove", 0, 0], ["rollback", 2], ["add", 3, 3, False], ["rollback", 1], ["rollback", 0]],
+    [["add", 0, 0, False], ["incref", 0, 5], ["replace", 1, 1, False], ["rollback", 2], ["add", 4, 4, False], ["rollback", 0]],
+    [["incref", 0, 4], ["incref", 1, 4], ["incref", 1, 5], ["decref", 0, 4], ["decref", 1, 4], ["decref", 1, 5], ["rollback", 4], ["add", 3, 3, False],
+     ["rollback", 3], ["add", 4, 4, False], ["rollback", 0]],
     # order change inside a slot list: remove + rollback re-appends
     [["add", 0, 0, False], ["add", 3, 3, False], ["remove", 0, 0], ["rollback", 2], ["replace", 1, 1, False], ["rollback", 0]],
 ]
@@ -380,7 +420,7 @@ def run(ctx):
     if not ctx.quick():
         # bounded-exhaustive: every history of length <= 4 over a small alphabet on the corpus universe
         alpha = [["add", 0, 0, False], ["add", 1, 1, False], ["add", 0, 0, True], ["add", 2, 2, True], ["remove", 0, 0], ["remove", 1, 1],
-                 ["replace", 1, 1, False], ["replace", 2, 2, True], ["incref", 0, 0], ["incref", 1, 2], ["incref", 0, 1], ["decref", 0, 0],
+                 ["replace", 1, 1, False], ["replace", 2, 2, True], ["incref", 0, 0], ["incref", 1, 2], ["incref", 0, 1], ["incref", 0, 4], ["decref", 0, 0],
                  ["rollback", 0], ["rollback", 1], ["rollback", 2]]
         cnt = 0
         for n in range(1, 5):
@@ -390,7 +430,8 @@ def run(ctx):
                 cnt += 1
         ctx.extra["exhaustive_histories_len_le_4"] = cnt
 
-    replies = ctx.model([{"cmd": "c17.run", "pkgs": pk, "blks": bl, "steps": steps} for pk, bl, steps, *_ in batch])
+    # the model is given the key each blocker is registered under, not its own .key: the code must never consult that one
+    replies = ctx.model([{"cmd": "c17.run", "pkgs": pk, "blks": [b[:2] for b in bl], "steps": steps} for pk, bl, steps, *_ in batch])
 
     for (pk, bl, steps, results, snaps, w, tag), rep in zip(batch, replies):
         case = {"pkgs": pk, "blks": bl, "steps": steps, "tag": tag}
@@ -398,40 +439,36 @@ def run(ctx):
             ctx.mismatch(case, "driver rejected the request")
             continue
         msteps = rep["steps"]
-        # ---- edge A: model vs code, step by step (exact order of every list the code keeps)
+        # ---- edge A: model vs code, step by step (exact order of every list the code keeps).  A difference does not end the evaluation:
+        # the property itself (edge C) is still decided on the real code, so that a defect is reported with the state it corrupts
         ok = True
         finding = None          # contract clause broken first (-> open finding class), None = in contract
-        nok = 0                 # number of steps that ran through
         if len(msteps) != len(results):
             ctx.mismatch(case, f"model stopped after {len(msteps)} steps, code after {len(results)}")
-            continue
+            ok = False
         for i, (res, m) in enumerate(zip(results, msteps)):
+            if res[0] == "ok" and m["r"] == "ok" and not m.get("app", True) and finding is None:
+                finding = FINDING_OF[steps[i][0]]
+            if not ok:
+                continue        # past the first difference only the contract flags are read
             if res[0] != m["r"]:
                 ctx.mismatch(case, f"step {i} {steps[i]}: code {res}, model {m['r']}")
                 ok = False
-                break
-            if res[0] != "ok":
+            elif res[0] != "ok":
                 ctx.count("ended_by_" + res[0] + ("_" + res[1] if res[1] else ""))
-                break
-            if not m.get("app", True) and finding is None:
-                finding = FINDING_OF[steps[i][0]]
-            if snaps[i]["problems"]:
-                ctx.mismatch(case, f"step {i}: {snaps[i]['problems']}")
+            elif snaps[i]["problems"]:
+                ctx.mismatch(case, f"step {i} {steps[i]}: {snaps[i]['problems']}")
                 ok = False
-                break
-            if res[1] != m["out"]:
+            elif res[1] != m["out"]:
                 ctx.mismatch(case, f"step {i} {steps[i]}: code returned {res[1]}, model {m['out']}")
                 ok = False
-                break
-            ms = w.model_snap(m["snap"])
-            if ms != snaps[i]:
-                diff = {k: (snaps[i][k], ms[k]) for k in ms if ms[k] != snaps[i][k]}
-                ctx.mismatch(case, f"step {i} {steps[i]}: state differs (code, model): {diff}")
-                ok = False
-                break
-            nok += 1
-        if not ok:
-            continue
+            else:
+                ms = w.model_snap(m["snap"])
+                if ms != snaps[i]:
+                    diff = {k: (snaps[i][k], ms[k]) for k in ms if ms[k] != snaps[i][k]}
+                    ctx.mismatch(case, f"step {i} {steps[i]}: state differs (code, model): {diff}")
+                    ok = False
+        nok = sum(1 for res in results if res[0] == "ok")      # number of steps that ran through on the real code
         for st in steps:
             ctx.count("op_" + st[0])
         ctx.count("len_%02d" % (len(steps) // 8 * 8))
@@ -481,7 +518,7 @@ def run(ctx):
             if ended == "raises" and steps[nok][0] == "rollback":
                 ctx.violation(case, f"rollback at step {nok} raised {results[nok][1]}", finding=finding)
             # the specification's own replay (Lean) against the real final state
-            if in_contract and ended == "ok":
+            if ok and in_contract and ended == "ok":
                 if rep["replay"] is None:
                     ctx.mismatch(case, "Lean replay of the remaining operations failed on an in-contract history")
                 else:
